@@ -170,6 +170,9 @@ func c13(c *Ctx) {
 			// … and with one argument only, of either map type
 			{Kind: gen.KElem, Tag: "u", AttrsCmd: "m0", Inline: &gen.Node{Kind: gen.KText, Parts: []gen.Part{{Static: "one string map"}}}},
 			{Kind: gen.KElem, Tag: "u", AttrsCmd: "mb", Inline: &gen.Node{Kind: gen.KText, Parts: []gen.Part{{Static: "one bool map"}}}},
+			// a class list from a map alone, and from a string followed by a map
+			{Kind: gen.KElem, Tag: "q", ClassExprs: []string{"mb"}, Inline: &gen.Node{Kind: gen.KText, Parts: []gen.Part{{Static: "map classes"}}}},
+			{Kind: gen.KElem, Tag: "q", ClassExprs: []string{"s1", "mb"}, Inline: &gen.Node{Kind: gen.KText, Parts: []gen.Part{{Static: "string and map classes"}}}},
 			{Kind: gen.KFor, Chain: []gen.Branch{{Header: "for _, x := range xs", Kids: []*gen.Node{{Kind: gen.KElem, Tag: "i", ClassExprs: []string{"xs", `"k"`}, Inline: &gen.Node{Kind: gen.KScript, Expr: "x"}}}}}},
 		}})
 		// … and by renders that fail half way through their list (a valid value, then one of an unsupported type)
